@@ -26,7 +26,10 @@ let step1 (cfg : cl_cfg) (s : cl_state) (ev : cl_event) (os : cl_out list) (m : 
   let (m', mf) = cmon_step cfg s ev os m in
   (tag "C23" (chk_C23c os) @ tag "C27" (chk_C27 cfg s ev os) @ tag "C27" (chk_C27b cfg s ev os) @ tag "C17" (chk_C17 cfg s ev os) @ tag "C31" (chk_C31c cfg os)
    @ List.map (fun c -> let c = int_of_n c in ("C06", if c < 10 then Printf.sprintf "clause%d class=same-id-both-directions" c else Printf.sprintf "clause%d" (c - 10))) (chk_C06c cfg s ev os)
-   @ List.map (fun (p, c) -> (Printf.sprintf "C%02d" (int_of_n p), Printf.sprintf "clause%d" (int_of_n c))) mf, m')
+   @ List.map (fun (p, c) -> (Printf.sprintf "C%02d" (int_of_n p), Printf.sprintf "clause%d" (int_of_n c))) mf
+   (* C19 at the client's use of the transactions: a call that is overdue (28,1) sits on a retry / timed
+      transaction that outlived its budget - something that is not progress restarted it *)
+   @ List.concat_map (fun (p, c) -> if int_of_n p = 28 && int_of_n c = 1 then [("C19", "client-exchange-outlives-its-budget")] else []) mf, m')
 
 (* The checkers run on the implementation's outputs and on the model's own outputs (each with its
    own monitor): "model=fails" marks a failure that the faithful model shows in the same step (a
